@@ -305,9 +305,86 @@ fn counts_cfg(cfg: &WCfg) -> Report {
     rep
 }
 
+/// decision nodes with hundreds of elements and distinct subs: a xorshift-filled truth table over 12 (11, 13)
+/// variables as an SDD on vtrees whose root splits the variables 8 | 4, 7 | 5 (6 | 5, 9 | 4): the root has up to
+/// 2^8 elements, almost all with different subs. Counts and evaluate against the table.
+fn many_elements(ctx: &Ctx) -> Report {
+    let items: Vec<(usize, usize, bool)> = ctx.tier.pick(vec![(12usize, 8usize, true), (12, 7, true), (11, 6, true), (12, 8, false)], vec![(12, 8, true), (12, 7, true), (11, 6, true), (13, 9, true), (12, 8, false), (12, 4, true), (10, 7, true)]);
+    let mut r = par_run(ctx, &items, |_, (n, left, compress)| {
+        let mut rep = Report::default();
+        rep.exhaustive = true;
+        let (n, left) = (*n, *left);
+        let cfg = WCfg { width: n, labels: (0..n).collect(), reversed: false };
+        let mut f = Big::konst(n, false);
+        let mut x = (n as u64 * 31 + left as u64).wrapping_mul(0x9E3779B97F4A7C15) | 1;
+        for w in f.w.iter_mut() {
+            x ^= x << 13;
+            x ^= x >> 7;
+            x ^= x << 17;
+            *w = x;
+        }
+        let labs = |r: std::ops::Range<usize>| r.map(|v| VarLabel::new(v as u64)).collect::<Vec<_>>();
+        let vt = VTree::new_node(Box::new(VTree::right_linear(&labs(0..left))), Box::new(VTree::right_linear(&labs(left..n))));
+        rsdd::verif::set_table_capacity(4);
+        let mut b = CompressionSddBuilder::new(vt);
+        rsdd::verif::set_table_capacity(0);
+        rsdd::builder::sdd::SddBuilder::set_compression(&mut b, *compress);
+        fn build<'a>(b: &'a CompressionSddBuilder<'a>, f: &Big, v: usize) -> SddPtr<'a> {
+            if f.is_false() {
+                return SddPtr::PtrFalse;
+            }
+            if f.is_true() {
+                return SddPtr::PtrTrue;
+            }
+            let (lo, hi) = (build(b, &f.cofactor(v, false), v + 1), build(b, &f.cofactor(v, true), v + 1));
+            let x = b.var(VarLabel::new(v as u64), true);
+            b.or(b.and(x, hi), b.and(x.neg(), lo))
+        }
+        let p = match guarded(|| build(&b, &f, 0)) {
+            Ok(p) => p,
+            Err(_) => return rep, // construction is C03's business
+        };
+        if bigtt::sdd_big(p, n, &|l| Some(l)).ok().as_ref() != Some(&f) {
+            return rep;
+        }
+        let elems = match p {
+            SddPtr::Reg(o) | SddPtr::Compl(o) => o.iter().count(),
+            _ => 0,
+        };
+        rep.max_depth = elems as u64;
+        let real = real_params(n, &real_w);
+        let ff = ff_params(n);
+        rep.states += 1;
+        count_checks(&mut rep, &cfg, &format!("SDD with a root of {} elements (vtree split {} | {}, compression {})", elems, left, n - left, compress), &[("xorshift-filled truth table".to_string(), p, f.clone())], &real, &ff);
+        // evaluate on every assignment (count_checks samples eight)
+        for a in 0..(1usize << n) {
+            let v: Vec<bool> = (0..n).map(|i| (a >> i) & 1 == 1).collect();
+            rep.evaluations += 1;
+            match guarded(|| p.evaluate(&v)) {
+                Ok(r) if r == f.eval(a) => {}
+                Ok(r) => {
+                    viol(&mut rep, "count:evaluate", &cfg, "wide_counts", format!("SDD with a root of {} elements: evaluate on assignment {:#b} gives {}, the function {}", elems, a, r, f.eval(a)));
+                    break;
+                }
+                Err(e) => {
+                    viol(&mut rep, "count:panic", &cfg, "wide_counts", format!("evaluate panicked: {}", e));
+                    break;
+                }
+            }
+        }
+        rep.traces += 1;
+        rep
+    });
+    r.bound("many_element_nodes", json!({"configurations": items.iter().map(|(n, l, c)| json!({"variables": n, "root_split": [l, n - l], "compression": c})).collect::<Vec<_>>(), "function": "xorshift-filled truth table", "checks": "real-valued and modular counts of both polarities against brute force, evaluate on every assignment"}));
+    r.add_extra("largest_decision_node_elements", r.max_depth);
+    r.max_depth = 0;
+    r
+}
+
 pub fn counts(ctx: &Ctx) -> Report {
     let cfgs = configs(ctx);
     let mut r = par_run(ctx, &cfgs, |_, c| counts_cfg(c));
+    r.merge(many_elements(ctx));
     r.bound("wide_managers", json!({"configurations": cfgs.iter().map(|c| c.json()).collect::<Vec<_>>(), "functions": "rule-defined families over the 8 table variables and their negations (BDD: all, SDD on the right-linear vtree over the whole manager: every second, decision-DNNF of both stores: a three-clause formula over every triple)", "checks": "real-valued and modular counts against the brute-force sum, evaluate on 8 assignments each"}));
     r.add_extra("wide_manager_count_checks", r.transitions);
     r
